@@ -5,7 +5,7 @@ from .rules import r1, r3, r5, r2e, r4, lexer, r9, r13, r11, r12, r14, c10, r8, 
 PROPS = {
     "C04": [lambda ctx, rep: r9.rule_R9(ctx, rep, only=["prune_to_minimal"]),
             lambda ctx, rep: r11.rule_R11_switch(ctx, rep, funcs=["prune_to_minimal", "traverse_pruned_translation"]),
-            r13.rule_R13_dedupe, r13.rule_T4],
+            r13.rule_R13_dedupe, r13.rule_cost_marks, r13.rule_T4, r12.rule_R1c],
     "C05": [lambda ctx, rep: r9.rule_R9(ctx, rep, only=["yaep_parse"]), r9.rule_ambiguity_writers],
     "C01": [r6.rule_R6_flags, r6.rule_R6_debug, r7.rule_T3],
     "C02": [r7.rule_T1, r13.rule_births, r4.rule_R4d, r13.rule_R13_marks],
